@@ -397,6 +397,66 @@ def _install_stroke_order():
     M.add_stroke = add_stroke
 
 
+# ------------------------------------------------------------------------------------
+# C09: reference events.  node_to_ref (node -> CellRange) and CellRange.__str__ (CellRange -> text)
+# are recorded as events {host table, host cell, node, range, text}; C09's oracle (independent
+# denotation + resolver) judges them.  The denotation half is judged inline.
+def _install_ref_events():
+    from numbers_parser import model as modelmod
+    from numbers_parser import xrefs
+    from vf.ref import formula as F
+
+    M = modelmod._NumbersModel
+    orig_ntr = M.node_to_ref
+    orig_str = xrefs.CellRange.__str__
+    events = _local.setdefault("ref_events", [])
+
+    @functools.wraps(orig_ntr)
+    def node_to_ref(self, table_id, row, col, node):
+        res = orig_ntr(self, table_id, row, col, node)
+        _count("ref_denotation")
+        try:
+            rows, cols, flags = F.denote(node, (row, col), "")
+            lib_rows = None if res.row_start is None else (res.row_start, res.row_start if res.row_end is None else res.row_end)
+            lib_cols = None if res.col_start is None else (res.col_start, res.col_start if res.col_end is None else res.col_end)
+            single = not node.HasField("AST_colon_tract")
+            lib_flags = (bool(res.row_start_is_abs), bool(res.row_start_is_abs if single else res.row_end_is_abs),
+                         bool(res.col_start_is_abs), bool(res.col_start_is_abs if single else res.col_end_is_abs))
+            ev = {"table_id": table_id, "host": (row, col), "node": node, "range": res, "den": (rows, cols, tuple(bool(x) for x in flags)), "text": None,
+                  "to_table_id": res.to_table_id}
+            res._vf_event = ev
+            events.append(ev)
+            if (lib_rows, lib_cols) != (rows, cols):
+                _vio("C09", "ref_denotation", {"what": "coordinates", "tract": not single},
+                     {"host": [row, col], "lib": [lib_rows, lib_cols], "stored": [rows, cols]})
+            elif lib_flags != tuple(bool(x) for x in flags):
+                _vio("C09", "ref_denotation", {"what": "absolute-flags", "tract": not single}, {"host": [row, col], "lib": lib_flags, "stored": list(flags)})
+        except ValueError as e:
+            _count("ref_denotation.not_comparable")
+            res._vf_event = None
+        except Exception as e:  # noqa: BLE001
+            _vio("C09", "ref_denotation", {"what": "monitor:" + type(e).__name__}, traceback.format_exc()[-400:])
+        return res
+
+    @functools.wraps(orig_str)
+    def cell_range_str(self):
+        ev = getattr(self, "_vf_event", None)
+        try:
+            txt = orig_str(self)
+        except Exception as e:  # noqa: BLE001
+            _count("ref_text.raised")
+            if ev is not None:
+                ev["text"] = ("raised", type(e).__name__)
+            raise
+        _count("ref_text")
+        if ev is not None:
+            ev["text"] = txt
+        return txt
+
+    M.node_to_ref = node_to_ref
+    xrefs.CellRange.__str__ = cell_range_str
+
+
 CONTRACTS = {
     "d128_exact": _install_d128_exact,
     "record_roundtrip": _install_record_roundtrip,
@@ -408,6 +468,7 @@ CONTRACTS = {
     "container_errors": _install_container_errors,
     "datalist_key": _install_datalist_key,
     "stroke_order": _install_stroke_order,
+    "ref_events": _install_ref_events,
 }
 
 
